@@ -113,7 +113,7 @@ func GenProgram(t *rapid.T) *Node {
 	// most programs start with a few declarations so that calls, constructors and methods have targets
 	for i, n := 0, g.n(0, 3, "nprelude"); i < n; i++ {
 		g.budget++
-		prog.C = append(prog.C, g.stmtOf(pick(g, []string{"funcdecl", "funcdecl", "ctor", "method-obj", "accessor-obj", "args-fn"}, "prelude"), true)...)
+		prog.C = append(prog.C, g.stmtOf(pick(g, []string{"funcdecl", "funcdecl", "ctor", "ctor", "method-obj", "accessor-obj", "args-fn"}, "prelude"), true)...)
 	}
 	prog.C = append(prog.C, g.stmts(g.n(2, 10, "ntop"), true)...)
 	// finish with an expression statement most of the time so that the completion value is interesting
@@ -150,7 +150,7 @@ func (g *G) stmt(declsAllowed bool) []*Node {
 	deep := g.depth > 4
 	choices := []string{"log", "log", "log", "log", "var", "var", "assign", "assign", "exprcall", "exprcall", "logcall", "logcall", "if", "upd"}
 	if !deep {
-		choices = append(choices, "for", "while", "dowhile", "switch", "try", "try", "labelblock", "forin", "trythrow", "closure-loop")
+		choices = append(choices, "for", "while", "dowhile", "switch", "switch", "try", "try", "labelblock", "labelblock", "forin", "trythrow", "closure-loop")
 		if !g.NoWith {
 			choices = append(choices, "with")
 		}
@@ -171,7 +171,7 @@ func (g *G) stmt(declsAllowed bool) []*Node {
 		choices = append(choices, "continue", "continue")
 	}
 	if len(g.sc.blocks) > 0 {
-		choices = append(choices, "breaklabel")
+		choices = append(choices, "breaklabel", "breaklabel", "breaklabel")
 	}
 	return g.stmtOf(pick(g, choices, "stmt"), declsAllowed)
 }
@@ -487,6 +487,9 @@ func (g *G) loop(form string) []*Node {
 
 func (g *G) switchStmt() *Node {
 	disc := g.expr(pick(g, []kind{kNum, kNum, kStr}, "dkind"), 1)
+	if g.coin(60, "discconst") {
+		disc = Num(float64(g.n(0, 3, "discv"))) // likely to hit one of the constant cases below
+	}
 	n := N("switch", disc)
 	ncase := g.n(1, 4, "ncase")
 	defPos := -1
@@ -529,7 +532,7 @@ func (g *G) caseBody() []*Node {
 			out = append(out, g.stmt(false)...)
 		}
 	}
-	if g.coin(55, "casebreak") {
+	if g.coin(40, "casebreak") {
 		out = append(out, NS("break", ""))
 	}
 	return out
@@ -598,6 +601,17 @@ func (g *G) tryStmt(forceThrow bool) *Node {
 	if mode != 0 {
 		fb := Block(ExprStmt(Call(Id("log"), Str("finally"))))
 		fb.C = append(fb.C, g.stmts(g.n(0, 2, "nfin"), false)...)
+		if g.coin(25, "finabrupt") {
+			// an abrupt completion of the finally block overrides whatever the try/catch blocks completed with
+			switch {
+			case g.sc.inLoop > 0 && g.coin(50, "finbreak"):
+				fb.C = append(fb.C, NS(pick(g, []string{"break", "continue"}, "finbc"), ""))
+			case g.sc.inFunc:
+				fb.C = append(fb.C, N("return", g.expr(kVal, 1)))
+			case len(g.sc.blocks) > 0:
+				fb.C = append(fb.C, NS("break", pick(g, g.sc.blocks, "finbl")))
+			}
+		}
 		fin = fb
 	}
 	return N("try", tb, catch, fin)
